@@ -183,13 +183,21 @@ class Interp:
             a = self.factor(inv['A'], name, 'A')
             g = self.factor(inv['G'], name, 'G')
             d = self.combined(mod, raw, name)
-            v = self.solve(a, g, d, self.method(), lam_inv, lam_use)
+            # the reference must never crash on garbage produced by a broken
+            # implementation (non-finite captures): fall back to NaN
+            # expectations, which compare() reports as a mismatch
+            try:
+                v = self.solve(a, g, d, self.method(), lam_inv, lam_use)
+                la = torch.linalg.eigvalsh((a + a.t()) / 2).max().item()
+                lg = torch.linalg.eigvalsh((g + g.t()) / 2).max().item()
+            except Exception:  # noqa: BLE001  (torch._C._LinAlgError etc.)
+                v = torch.full_like(d, float('nan'))
+                la = lg = float('nan')
+                info['nonfinite'] = True
             vs[name], ds[name] = v, d
             info.setdefault('AG', {})[name] = (a, g)
             info['lams'] = (lam_inv, lam_use)
             lam = lam_use if self.method() == 'eigen' else lam_inv
-            la = torch.linalg.eigvalsh((a + a.t()) / 2).max().item()
-            lg = torch.linalg.eigvalsh((g + g.t()) / 2).max().item()
             info['cond'] = max(
                 info['cond'],
                 (max(la, 0) * max(lg, 0) + lam) / lam if self.method() != 'inverse'
